@@ -7,6 +7,7 @@ import (
 	"github.com/berquerant/crd/op"
 	vf "github.com/berquerant/crd/zz_verif"
 	"github.com/berquerant/crd/zz_verif/spec"
+	"github.com/spf13/cobra"
 )
 
 // VerifC09MainExit: when the command fails, main exits with a non-zero status.
@@ -399,5 +400,56 @@ func VerifC12DebugFlag() {
 		vf.Assert("nothing-on-stdout-on-failure", plain == "" && debug == "")
 		vf.Reach("failed")
 	}
+	vf.Reach("end")
+}
+
+type verifCLICase struct {
+	cmd   int // 0 text conv syllable, 1 text conv degree, 2 write, 3 write event, 4 text parse
+	input string
+	flags []string
+}
+
+var verifNonsense = []verifCLICase{
+	{0, "C[0]", nil}, {0, "C[1/0]", nil}, {0, "C[0/4]", nil}, {0, "C[1]{bpm=0}", nil}, {0, "C[1]{bpm=fast}", nil}, {0, "C[1]{vel=xx}", nil},
+	{0, "C[1]{mtr=0/4}", nil}, {0, "C[1]{mtr=3/0}", nil}, {0, "C[1]{key=Abm}", nil}, {0, "C[1] 4[1]", nil}, {0, "C/4[1]", nil}, {0, "", nil}, {0, "C[1", nil},
+	{0, "R[1]{bpm=0}", nil}, {0, "C[1]", []string{"--key", "Abm"}}, {0, "C[1]", []string{"--key", "H"}},
+	{1, "1[0]", nil}, {1, "1[1]{vel=loud}", nil}, {1, "1/C[1]", nil}, {1, "0[1]", nil}, {1, "", nil},
+	{2, "- values: []\n", nil}, {2, "- chord:\n    degree: \"1\"\n    name: nosuch\n  values: [\"1\"]\n", nil}, {2, "- values: [\"1\"]\n  bpm: 0\n", nil},
+	{2, "- values: [\"1\"]\n  velocity: xx\n", nil}, {2, "- values: [\"1\"]\n  key: Abm\n", nil}, {2, "- values: [\"1\"]\n  meter: 0/4\n", nil},
+	{2, "[]\n", nil}, {2, "", nil}, {2, "- values: [\"0\"]\n", nil}, {2, "- values: [\"1/0\"]\n", nil}, {2, "- chord:\n    degree: \"0\"\n    name: \"\"\n  values: [\"1\"]\n", nil},
+	{2, "- values: [\"1\"]\n", []string{"--velocity", "xx"}}, {2, "- values: [\"1\"]\n", []string{"--meter", "0/0"}}, {2, "- values: [\"1\"]\n", []string{"--key", "H"}},
+	{2, "- values: [\"1\"]\n", []string{"--track", "0"}}, {2, "- values: [\"1\"]\n", []string{"--key", "Abm"}}, {2, "- values: [\"1\"]\n  meta: 7\n", nil},
+	{3, "- values: []\n", nil}, {3, "- values: [\"1\"]\n  key: Fb\n", nil},
+	{4, "C[1] ]", nil}, {4, "{", nil}, {4, "C_[1]", nil},
+}
+
+// VerifC09CLINonsense: every class of musically meaningless input makes the first command
+// that has to interpret it fail: an error from RunE, nothing on standard output, no MIDI
+// bytes in the -o file — never a panic.
+func VerifC09CLINonsense() {
+	i := vf.NondetIntRange("case", 0, len(verifNonsense)-1)
+	c := verifNonsense[i]
+	in, out := vf.TempPath("nonsense-in"), vf.TempPath("nonsense-out")
+	verifReset(in, out)
+	defer verifReset(in, out)
+	os.WriteFile(in, []byte(c.input), 0o644)
+	cmd := []*cobra.Command{textCmdConvSyllable, textCmdConvDegree, writeCmd, writeCmdEvent, textCmdParse}[c.cmd]
+	toFile := vf.NondetIntRange("toFile", 0, 1) == 1
+	flags := append([]string{}, c.flags...)
+	if toFile {
+		flags = append(flags, "--output", out)
+	} else {
+		flags = append(flags, "--output", "")
+	}
+	perr := cmd.ParseFlags(flags)
+	var rerr error
+	printed := ""
+	if perr == nil {
+		printed, rerr = verifCapture("nonsense-stdout", func() error { return cmd.RunE(cmd, []string{in}) })
+	}
+	vf.Assert("nonsense-is-refused", perr != nil || rerr != nil)
+	vf.Assert("nothing-on-stdout", printed == "")
+	b, _ := os.ReadFile(out)
+	vf.Assert("no-result-in-the-output-file", len(b) == 0)
 	vf.Reach("end")
 }
